@@ -93,7 +93,8 @@ enum Ev {
 enum Packet_ {
     Ack(u16),
     Data(u16, Vec<u8>),
-    Error,
+    /// ERROR with this code (0..7)
+    Error(u16),
     Oack,
 }
 
@@ -169,7 +170,7 @@ impl Socket for Scripted {
                 Ok(match p {
                     Packet_::Ack(n) => Packet::Ack(n),
                     Packet_::Data(n, d) => Packet::Data { block_num: n, data: d },
-                    Packet_::Error => Packet::Error { code: ErrorCode::NotDefined, msg: "x".into() },
+                    Packet_::Error(c) => Packet::Error { code: err_of_index(c).unwrap_or(ErrorCode::NotDefined), msg: "x".into() },
                     Packet_::Oack => Packet::Oack(vec![]),
                 })
             }
@@ -213,8 +214,12 @@ fn parse_sev(timeout: u64, s: &str) -> Option<Ev> {
         }
         return Some(Ev::Deliver(Packet_::Ack(n as u16), dt));
     }
+    if let Some(c) = k.strip_prefix('E') {
+        // `E` = ERROR 0, `E<code>` = ERROR with that code
+        let c: u16 = if c.is_empty() { 0 } else { c.parse().ok()? };
+        return Some(Ev::Deliver(Packet_::Error(c), dt));
+    }
     match k {
-        "E" => Some(Ev::Deliver(Packet_::Error, dt)),
         "O" => Some(Ev::Deliver(Packet_::Oack, dt)),
         "G" => Some(Ev::Fail(dt)),
         _ => None,
@@ -293,8 +298,11 @@ fn run_and_classify<F: FnOnce() -> std::thread::JoinHandle<()>>(sh: Arc<Mutex<Sh
 }
 
 fn parse_rev(s: &str) -> Option<Ev> {
+    if let Some(c) = s.strip_prefix('E') {
+        let c: u16 = if c.is_empty() { 0 } else { c.parse().ok()? };
+        return Some(Ev::Deliver(Packet_::Error(c), 0));
+    }
     match s {
-        "E" => return Some(Ev::Deliver(Packet_::Error, 0)),
         "T" => return Some(Ev::Fail(0)),
         "O" => return Some(Ev::Deliver(Packet_::Oack, 0)),
         _ => {}
